@@ -46,6 +46,18 @@ def interval(a, b):
     return lambda N, cfg, s: a + (b - a) * _frac(N)
 
 
+def closed_interval(a, b):
+    """As interval(), but for N >= 2 the first point is EXACTLY the closed lower end of the documented domain (a sphere's centre, a
+    rod's face): 'positions are returned unchanged' must hold bit for bit there too (added after the seeded change S3-C05-1, which
+    nudged r = 0 to eps * b to silence a 0/0 warning)."""
+    def f(N, cfg, s):
+        x = a + (b - a) * _frac(N)
+        if N >= 2:
+            x[0] = a
+        return x
+    return f
+
+
 def box(lo, hi):
     """(N, d) points on a diagonal-free pattern inside the box [lo, hi] (per-coordinate different fractions)."""
     lo = np.asarray(lo, float)
@@ -190,12 +202,12 @@ entry("dsd.explosivearc.ExplosiveArc", ndim=2, ctor={"t_f": 0.06}, t=0.0, pts=_a
       note="documented: polar mesh r_1..r_2 x -pi/2..pi/2 in row order; t_f reduced for cost")
 
 # ----------------------------------------------------------------------------------------------- heat
-entry("heat.rod1d.Rod1D", t=0.1, pts=interval(0.0, 2.0), names=("temperature",))
+entry("heat.rod1d.Rod1D", t=0.1, pts=closed_interval(0.0, 2.0), names=("temperature",))
 for _m, _c in (("planar_sandwich", "PlanarSandwich"), ("planar_sandwich_hot", "PlanarSandwichHot"),
                ("planar_sandwich_half", "PlanarSandwichHalf")):
-    entry("heat.%s.%s" % (_m, _c), ctor={"Nsum": 200}, t=0.1, pts=interval(0.0, 2.0), names=("temperature",),
+    entry("heat.%s.%s" % (_m, _c), ctor={"Nsum": 200}, t=0.1, pts=closed_interval(0.0, 2.0), names=("temperature",),
           note="Nsum reduced from 10000 for cost")
-entry("heat.hutchens1.Hutchens1", t=0.1, pts=interval(0.0, 1.0), names=("temperature",),
+entry("heat.hutchens1.Hutchens1", t=0.1, pts=closed_interval(0.0, 1.0), names=("temperature",),
       note="names its position field 'radius'; the standard table prescribes 'position' for the generic r")
 entry("heat.hutchens2.Hutchens2", ndim=2, layout="dN", t=0.0, pts=box((0.0, 0.0), (1.0, 2.0)), pos=("position_r", "position_z"),
       names=("temperature",))
